@@ -123,7 +123,7 @@ func HarnessC03RequiredDefs() {
 
 func HarnessC03OperationIDs() {
 	ids := []string{"", "a", "b"}
-	i, j, k := verifChoose(3), verifChoose(3), verifChoose(3)
+	i, j, k, l := verifChoose(3), verifChoose(3), verifChoose(3), verifChoose(3)
 	mk := func(id string) *spec.Operation {
 		op := &spec.Operation{}
 		op.ID = id
@@ -131,14 +131,28 @@ func HarnessC03OperationIDs() {
 	}
 	ops := map[string]map[string]*spec.Operation{
 		"GET":  {"/p": mk(ids[i]), "/q": mk(ids[j])},
-		"POST": {"/p": mk(ids[k])},
+		"POST": {"/p": mk(ids[k]), "/q": mk(ids[l])},
 	}
-	s := newSpecHarnessValidator(&spec.Swagger{}, ops, verifBool(), true)
+	cont := verifBool()
+	s := newSpecHarnessValidator(&spec.Swagger{}, ops, cont, true)
+	count := func(x int) int {
+		n := 0
+		for _, y := range []int{i, j, k, l} {
+			if y == x {
+				n++
+			}
+		}
+		return n
+	}
+	dup := count(1) > 1 || count(2) > 1
 	verifPermMaps(true)
 	got := outcomeOfResult(s.validateDuplicateOperationIDs())
-	verifPermMaps(false)
-	dup := (i != 0 && (i == j || i == k)) || (j != 0 && j == k)
 	verifAssert(got.valid == !dup, "operation-ids-unique")
+	if verifChecking("C10") {
+		again := outcomeOfResult(s.validateDuplicateOperationIDs())
+		verifAssert(verifSameSet(again.errs, got.errs), "error-set-independent-of-map-order")
+	}
+	verifPermMaps(false)
 	verifReach("end")
 }
 
